@@ -235,6 +235,10 @@ def trans(potential_forms, potential_form_builder):
   if len(second_form.parameters) != 1:
     raise ConfigurationException("the second parameter to trans(), 'as.constant' should have exactly one parameter defining shift. {} parameters found.".format(len(second_form.parameters)))
 
+  if getattr(second_form, 'next', None) is not None:
+    # ... the shift is one number: further ranges ('as.constant 1.0 >=1.5 as.constant 2.0') would be ignored.
+    raise ConfigurationException("the second argument to the trans() potential modifier must be a single 'as.constant', further ranges found")
+
   logger = logging.getLogger(__name__).getChild("trans")
 
 
